@@ -46,7 +46,33 @@ def errStr : Err → String
   | .noPort => "noPort" | .noSlices => "noSlices" | .noPods => "noPods"
   | .noNamedPort => "noNamedPort" | .externalOss => "externalOss" | .noService => "noService"
 
+/-- the cluster of a `reseps` case: si:<state> (see harness/internal/k8s/zz_verif_eps.go VerifResEps) -/
+def resCluster (s : String) : List (Svc × String) × List Slice :=
+  (splitOn s "&").foldl (fun (acc : List (Svc × String) × List Slice) x =>
+    match x.splitOn ":" with
+    | [name, st] =>
+      let i := nat (name.drop 1).toString
+      let svc : Svc := { name := name, ns := "d", ports := [⟨"", 80, .int 8080, "TCP"⟩], selector := [], external := st == "x",
+                         extName := if st == "x" then s!"ext{i}.example.com" else "" }
+      let k := if st.startsWith "r" then nat (st.drop 1).toString else if st == "m" then 1 else 0
+      let eps : List Ep := (List.range k).map (fun j => ⟨[s!"10.{i+1}.0.{j+1}"], some true⟩) ++ [⟨[s!"10.{i+1}.9.9"], some false⟩]
+      let sl : List Slice := if st == "e" || st == "x" then [] else [{ svc := name, ns := "d", ports := [some 8080], eps := eps }]
+      ((if st == "m" then acc.1 else acc.1 ++ [(svc, if st == "x" then "" else s!"10.96.0.{i+1}")]), acc.2 ++ sl)
+    | _ => acc) ([], [])
+
+def resBackends (kind s : String) : List Backend :=
+  (splitOn s ",").flatMap fun b =>
+    let b := if b.startsWith "D:" then (b.drop 2).toString else b
+    if kind == "ing" then [⟨b, 80⟩] else (b.splitOn "+").map fun x => ⟨x, 80⟩
+
+def runRes (fs : List String) : String :=
+  let (svcs, sl) := resCluster (kv fs "svcs")
+  let kind := kv fs "kind"
+  let r := resolveAll (kv fs "plus" == "1") (kind == "ing" && kv fs "cip" == "1") sl svcs [] (resBackends kind (kv fs "be"))
+  joinWith ";" ((List.range r.length).zip r |>.map fun (n, l) => s!"b{n}=" ++ joinWith "," (sortStr l))
+
 def run (kind : String) (fs : List String) : Option (String × String) :=
+  if kind == "reseps" then some (runRes fs, "-") else
   if kind != "eps" then none else
   let svc := parseSvc (kv fs "svc")
   let sl := parseSlices (kv fs "slices")
